@@ -177,7 +177,7 @@ CHECKS = {
         technique="runtime exploration: BFS with the real machine as transition function + cone-of-influence BFS + random-walk validation, invariant oracle on every reached set",
         engine="registry", design_ref="5/C19"),
     "C20": dict(
-        level="testing",
+        level="exploration",
         text="reflect enumerates every exported method of *Machine, *Event, *Transition, *Mutation, S, Time, *TimeIndex, Clock, Schema and State (a 'surface' case reports how many, "
              "and which are skipped as documented misuse); each is called with tuples from per-type argument domains (empty, nil, duplicate lists, canceled and nil contexts where the godoc "
              "says optional, events bound / without a machine / of the running handler, every Position and MutationType) on machines in the phases fresh, inside a handler (mid-queue), "
